@@ -19,8 +19,21 @@ impl<C, B> PoolRef<C, B> where C: PoolableConnection<B>, B: Send + 'static {
         ensures r.is_none_ref()
     { unimplemented!() }
 
+    /// the pool behind the reference still exists (not `none()`, not dropped)
+    pub uninterp spec fn alive(&self) -> bool;
+
+    /// blocks until the lock is free: `None` only if there is no pool any more
     #[verifier::external_body]
     pub fn lock(&self) -> (r: Option<PoolGuard<C, B>>)
+        ensures
+            self.is_none_ref() ==> r is None,
+            r is None ==> !self.alive(),
+            r is Some ==> r->0@.wf(),
+    { unimplemented!() }
+
+    /// does NOT block: `None` also when another thread merely holds the lock (says nothing about `alive`)
+    #[verifier::external_body]
+    pub fn try_lock(&self) -> (r: Option<PoolGuard<C, B>>)
         ensures
             self.is_none_ref() ==> r is None,
             r is Some ==> r->0@.wf(),
